@@ -27,3 +27,65 @@ def accumulator(ex, st, kind, hint=None, exclude=()):
     if len(c) != 1:
         raise Unsupported('expected exactly one newly allocated %s in the activation (the accumulator), found %d' % (kind, len(c)))
     return c[0][1]
+
+
+def assigned_names(nodes):
+    import ast
+    out = set()
+    for nd in nodes:
+        for x in ast.walk(nd):
+            if isinstance(x, ast.Name) and isinstance(x.ctx, ast.Store):
+                out.add(x.id)
+    return out
+
+
+def names_in(node):
+    import ast
+    return {x.id for x in ast.walk(node) if isinstance(x, ast.Name)}
+
+
+def carried_ints(st, n):
+    """loop-carried locals (assigned in the loop body) that hold an int at loop entry: [name]"""
+    fr = st.frames[st.stack[-1]]
+    return sorted(k for k in assigned_names(n.body) if k in fr and z3.is_expr(fr[k]) and fr[k].sort() == Val and st.entails(Val.is_i(fr[k])))
+
+
+def carried_constants(st, n):
+    """loop-carried locals that hold a constant (True / False / None) at loop entry: [(name, value)]; candidates for: still holds at the head"""
+    from pyvc.vals import B, NONE
+    fr = st.frames[st.stack[-1]]; out = []
+    for k in sorted(assigned_names(n.body)):
+        v = fr.get(k)
+        if v is None or not z3.is_expr(v) or v.sort() != Val:
+            continue
+        for c in (B(True), B(False), NONE):
+            if st.entails(v == c):
+                out.append((k, c)); break
+    return out
+
+
+def is_generator_function(node):
+    """a def whose own scope contains yield: calling it runs none of its body and returns a generator object"""
+    import ast
+    todo = list(node.body)
+    while todo:
+        x = todo.pop()
+        if isinstance(x, (ast.Yield, ast.YieldFrom)):
+            return True
+        for c in ast.iter_child_nodes(x):
+            if not isinstance(c, (ast.FunctionDef, ast.Lambda, ast.ClassDef)):
+                todo.append(c)
+    return False
+
+
+def havoc_fields_written(s, s0, o):
+    """fields of object o whose value the unit changed: set to unconstrained values (another call of the same method may have overwritten them
+    before a lazily evaluated result is consumed).  Returns the list of field names."""
+    from pyvc.vals import fresh
+    out = []
+    for f in list(s.heap):
+        a = Val.addr(o)
+        before = s0.heap[f][a] if f in s0.heap else None
+        if before is None or not s.entails(s.heap[f][a] == before):
+            s.wr(o, f, fresh('later_' + f)); out.append(f)
+    return out
